@@ -561,6 +561,8 @@ pub fn sl_make(r: &mut Rng, o: &SlOpts) -> (TrainSpec, Route, Result<SpeedLimitT
     let made = catch(std::panic::AssertUnwindSafe(|| b.make_speed_limit_train_sim(&location_map(), Some(1), None, None)));
     let sim = match made {
         Ok(Ok(mut s)) => { s.state.dt = uc::S * o.dt;
+            // a third of the runs start at a non-zero clock (a dispatched departure time): time advances by dt from THERE
+            if r.chance(0.33) { s.state.time = uc::S * (r.below(20000) as f64 + 0.5); }
             if let Some(rt) = o.ramp_up_time { s.fric_brake.ramp_up_time = uc::S * rt; }
             Ok(s) }
         Ok(Err(e)) => Err(format!("{:#}", e)),
